@@ -190,14 +190,32 @@ func (g *gen) limit() []string {
 	return []string{"limit", off, cnt}
 }
 
-// several returns 1..3 draws (repetitions wanted).
+// several returns 1..3 draws; one time in four repetitions are allowed
+// (the same member / field / key twice inside one command).
 func (g *gen) several(f func() string) []string {
 	n := 1 + g.t.Choose(3)
+	rep := g.t.Bool(250)
 	var out []string
 	for i := 0; i < n; i++ {
-		out = append(out, f())
+		x := f()
+		for try := 0; !rep && try < 8 && contains(out, x); try++ {
+			x = f()
+		}
+		if !rep && contains(out, x) {
+			break
+		}
+		out = append(out, x)
 	}
 	return out
+}
+
+func contains(l []string, x string) bool {
+	for _, y := range l {
+		if y == x {
+			return true
+		}
+	}
+	return false
 }
 
 type family struct {
@@ -259,7 +277,9 @@ var families = []family{
 	{"setrange", 3, func(g *gen) []string {
 		off := g.pick([]string{"0", "1", "3", "7"})
 		if !g.plain && g.t.Bool(100) {
-			off = g.pick([]string{"-1", "x", "536870912"})
+			// a negative offset is not generated: it panics the apply loop of
+			// every replica (recorded finding setrange-negative-offset-panics)
+			off = g.pick([]string{"x", "536870912", ""})
 		}
 		return []string{"setrange", g.key(), off, g.val()}
 	}},
@@ -272,9 +292,8 @@ var families = []family{
 	{"hget", 2, func(g *gen) []string { return []string{"hget", g.key(), g.sub()} }},
 	{"hmset", 4, func(g *gen) []string {
 		a := []string{"hmset", g.key()}
-		n := 1 + g.t.Choose(3)
-		for i := 0; i < n; i++ {
-			a = append(a, g.sub(), g.val())
+		for _, f := range g.several(g.sub) {
+			a = append(a, f, g.val())
 		}
 		return a
 	}},
@@ -333,9 +352,8 @@ var families = []family{
 	// ---- zset ----
 	{"zadd", 8, func(g *gen) []string {
 		a := []string{"zadd", g.key()}
-		n := 1 + g.t.Choose(3)
-		for i := 0; i < n; i++ {
-			a = append(a, g.score(), g.sub())
+		for _, m := range g.several(g.sub) {
+			a = append(a, g.score(), m)
 		}
 		return a
 	}},
